@@ -762,10 +762,18 @@ func (r *Raft) submitReadOnlyOperation(
 		return operationFuture
 	}
 
+	// Until this node has committed an entry from its own term, its commit index may be
+	// behind entries that were committed, and acknowledged to clients, by previous leaders.
+	// All of those entries are in its log, so it is safe to read once the whole log is applied.
+	readIndex := r.commitIndex
+	if !r.committedThisTerm() {
+		readIndex = r.log.LastIndex()
+	}
+
 	operation := &Operation{
 		Bytes:         operationBytes,
 		OperationType: readOnlyType,
-		readIndex:     r.commitIndex,
+		readIndex:     readIndex,
 	}
 	r.operationManager.pendingReadOnly[operation] = operationFuture.responseCh
 
